@@ -1166,7 +1166,10 @@ def aten_batch_norm_update_stats(
 
 
 @torch_op("aten::bernoulli", trace_only=True)
-def aten_bernoulli(self: TFloat) -> TFloat:
+def aten_bernoulli(
+    self: TFloat,
+    generator: Optional[str] = None,  # pylint: disable=unused-argument
+) -> TFloat:
     """Proximal implementation of aten::bernoulli.default
 
     Note that due to the limitation of ONNX, we ignore the `generator` argument in
@@ -6837,6 +6840,7 @@ def aten_multinomial(
     self: TFloat,
     num_samples: int,
     replacement: bool = False,
+    generator: Optional[str] = None,  # pylint: disable=unused-argument
 ) -> TInt:
     """multinomial(Tensor self, int num_samples, bool replacement=False, *, Generator? generator=None) -> Tensor"""
     # ONNX Multinomial doesn't support 1D input
@@ -7536,6 +7540,7 @@ def aten_normal(
     self: TTensor,
     mean: float = 0.0,
     std: float = 1.0,
+    generator: Optional[str] = None,  # pylint: disable=unused-argument
 ) -> TFloat:  # type: ignore[type-var]
     """normal_functional(Tensor self, float mean=0, float std=1, *, Generator? generator=None) -> Tensor"""
 
@@ -7555,6 +7560,7 @@ def aten_normal_float_float(
     layout: str = "",
     device: str = "",
     pin_memory: bool = False,
+    generator: Optional[str] = None,  # pylint: disable=unused-argument
 ) -> TensorType:
     """normal.float_float(float mean, float std, SymInt[] size, *, Generator? generator=None, ScalarType? dtype=None, Layout? layout=None, Device? device=None, bool? pin_memory=None) -> Tensor"""
 
@@ -7567,7 +7573,11 @@ def aten_normal_float_float(
 
 
 @torch_op("aten::normal.float_Tensor", trace_only=True)
-def aten_normal_float_tensor(mean: FLOAT, std: TFloat) -> TFloat:
+def aten_normal_float_tensor(
+    mean: FLOAT,
+    std: TFloat,
+    generator: Optional[str] = None,  # pylint: disable=unused-argument
+) -> TFloat:
     """normal.float_Tensor(float mean, Tensor std, *, Generator? generator=None) -> Tensor"""
 
     mean_casted = op.CastLike(mean, std)
@@ -7588,7 +7598,11 @@ def aten_normal_tensor_float(
 
 
 @torch_op("aten::normal.Tensor_Tensor", trace_only=True)
-def aten_normal_tensor_tensor(mean: TFloat, std: TFloat) -> TFloat:
+def aten_normal_tensor_tensor(
+    mean: TFloat,
+    std: TFloat,
+    generator: Optional[str] = None,  # pylint: disable=unused-argument
+) -> TFloat:
     """normal.Tensor_Tensor(Tensor mean, Tensor std, *, Generator? generator=None) -> Tensor"""
 
     sampled = op.RandomNormalLike(mean, mean=0.0, scale=1.0)
